@@ -34,6 +34,11 @@ def norm_code_repr(s):
     return s
 
 
+def norm_escapes(s):
+    """Every non-ASCII character in the escaped form repr() would use for an unprintable one."""
+    return s.encode("ascii", "backslashreplace").decode("ascii")
+
+
 def norm_long(s):
     return re.sub(r"\b(\d+)L\b", r"\1", s)
 
@@ -49,7 +54,7 @@ def diff_lines(a, b, limit=6):
         if x != y:
             c = classify("listing" if x.startswith(("#", " ")) or True else "", x, y) if False else (x[:0])
             k = (norm_long(norm_code_repr(x)) == norm_long(norm_code_repr(y)), norm_code_repr(x) == norm_code_repr(y),
-                 re.sub(r"[^A-Za-z_ ]", "", x)[:24])
+                 norm_escapes(x) == norm_escapes(y), re.sub(r"[^A-Za-z_ ]", "", x)[:24])
             if k in seen:
                 continue
             seen.add(k)
@@ -66,6 +71,9 @@ def classify(component, x, y):
             return "code-object-repr"
         if norm_long(norm_code_repr(x)) == norm_long(norm_code_repr(y)):
             return "long-suffix"
+        if norm_escapes(x) == norm_escapes(y):
+            # same text; one host's str.__repr__ shows a character the other host's Unicode database does not know as printable
+            return "text-printability"
         if "xasm" in component:
             return "xasm:" + ("name" if ("Method Name" in x or "Method Name" in y or "_0x?" in x or "_0x?" in y) else "other")
         for s in (x, y):
@@ -118,7 +126,7 @@ def run(tier, scratch, t0, replay=None):
     batches = D.build_batches(scratch, sorted(K.available_interps()), tier, "C07", n_stdlib=3 if quick else 80, n_gen=4 if quick else 60, batch=40,
                               with_corpus=False, gen_snippets=3 if quick else None,
                               focus=["frozenset", "shared_consts", "FLAG_REF", "backward_lines", "line_gaps", "int", "text", "closure"],
-                              must_templates=["t_opcode_zoo", "t_opcode_zoo2", "t_set_of_bytes", "t_long_loop", "t_shared_frozenset", "t_shared_big_tuple", "t_backward_lines", "t_line_gaps",
+                              must_templates=["t_opcode_zoo", "t_opcode_zoo2", "t_new_unicode", "t_set_of_bytes", "t_long_loop", "t_shared_frozenset", "t_shared_big_tuple", "t_backward_lines", "t_line_gaps",
                                               "t_strings", "t_floats", "t_closure", "t_try_nest"])
 
     def compile_batch(b):
